@@ -20,7 +20,7 @@ func (c *CharReferenceMap) AddInterval(start rune, end rune, reference any) {
 	if start > end {
 		panic("Start must be less or equal End")
 	}
-	if end >= 0xffff {
+	if start <= 0xfffe && end >= 0xffff {
 		end = 0xfffe
 	}
 
